@@ -780,6 +780,69 @@ def rule_narrow(chk, w):
                  "receiver", f.span.loc())
 
 
+def rule_wif(chk, w):
+    """WIF: the legacy transparent secret-key string is prefix || 32 key bytes || 0x01-iff-compressed
+    (zcashd's key_io). The decoder derives the compressed flag from "one byte longer and the last byte is
+    1", so the encoder must append that same constant exactly when `self.compressed` holds - an
+    unconditional flag byte, or another constant, makes uncompressed (or compressed) keys undecodable.
+    Writer forms accepted: `.chain(self.compressed.then_some(&K))`, or a push / extend of K under the true
+    edge of `self.compressed`. Reader: the comparison of `last()` with `Some(&K')`. Required: K == K'."""
+    import closures
+    import guards
+    enc = [f for f in w.fns.values() if f.p.endswith("keys::transparent::Key::encode_base58")]
+    dec = [f for f in w.fns.values() if f.p.endswith("keys::transparent::Key::decode_base58")]
+    if len(enc) != 1 or len(dec) != 1:
+        chk.fail("WIF", "missing", "Key::encode_base58 / decode_base58 not found")
+        return
+    eb, db = enc[0].body, dec[0].body
+    edu, ddu = closures.deep()(eb), closures.deep()(db)
+    comp = ("field", ("arg", 0), ".compressed")
+    wk = []          # constants the writer appends under `compressed`
+    uncond = []
+
+    def scan(o):
+        if not isinstance(o, tuple):
+            return
+        if o[0] == "call" and o[1].endswith("::then_some") and len(o[2]) == 2:
+            if closures.norm(o[2][0]) == comp and closures.norm(o[2][1])[0] == "const":
+                wk.append(closures.norm(o[2][1])[1])
+        for x in o[1:]:
+            if isinstance(x, tuple):
+                scan(x)
+            elif isinstance(x, list):
+                for y in x:
+                    scan(y)
+    for bb, t in eb.calls():
+        if eb.blocks[bb].cleanup or t.callee.indirect is not None:
+            continue
+        nm = t.callee.target_p()
+        if re.search(r"::collect(::<.*>)?$", nm):
+            scan(closures.norm(edu.origin(t.args[0])))
+        if re.search(r"Vec::<T, A>::(push|extend_from_slice|extend)$", nm) and len(t.args) == 2:
+            v = closures.norm(edu.origin(t.args[1]))
+            cval = v[1] if v[0] == "const" else (v[2][0][1] if v[0] == "agg" and v[2] and v[2][0][0] == "const" else None)
+            if cval is None:
+                continue
+            under = any(closures.norm(o_) == comp and tr_ is True for o_, tr_ in guards.facts(eb, edu, bb))
+            (wk if under else uncond).append(cval)
+    rk = []
+    for bb, t in db.calls():
+        if db.blocks[bb].cleanup or t.callee.indirect is not None or not re.search(r"PartialEq>?::(eq|ne)$", t.callee.target_p()):
+            continue
+        a = [closures.norm(ddu.origin(x)) for x in t.args]
+        for x, y in ((a[0], a[1]), (a[1], a[0])) if len(a) == 2 else ():
+            if x[0] == "call" and x[1].endswith("::last") and y[0] == "agg" and y[1].endswith("Some") and y[2] and \
+                    closures.norm(y[2][0])[0] == "const":
+                rk.append(closures.norm(y[2][0])[1])
+    if len(wk) == 1 and len(rk) == 1 and wk == rk and not [c for c in uncond if isinstance(c, int) and c in (0, 1)]:
+        chk.ok("WIF", "encode_base58 appends %r exactly when `compressed`; decode_base58 recognises a compressed key by a "
+               "last byte of %r" % (wk[0], rk[0]), sample=True)
+    else:
+        chk.fail("WIF", "compressed-flag", "the encoder appends %s under `compressed`%s, the decoder expects a last byte in %s: "
+                 "the two do not describe the same string format" %
+                 (wk or "nothing", (" and %s unconditionally" % uncond) if uncond else "", rk or "nothing"), enc[0].span.loc())
+
+
 def main(tier):
     chk = Check("C11", "other", tier)
     chk.explanation = (
@@ -802,6 +865,7 @@ def main(tier):
     chk.rule("EXTSCOPE", "the UIVK derived from a UFVK is the external-scope key, per component", floor=3)
     chk.rule("COVER", "the item-list encoders read every field of their key", floor=2)
     chk.rule("NARROW", "the diversifier index is narrowed to a child index with its high bytes checked", floor=1)
+    chk.rule("WIF", "legacy secret-key string: the compressed marker agrees between encoder and decoder", floor=1)
     chk.rule("TSCOPE", "scope-named transparent derivation functions use the scope they name", floor=6)
     w = zf.World(extract.facts_dir("all"), ["zcash_keys", "zcash_address"])
     counts = {"slot": 0, "arm": 0}
@@ -818,5 +882,6 @@ def main(tier):
     rule_extscope(chk, w)
     rule_cover(chk, w)
     rule_narrow(chk, w)
+    rule_wif(chk, w)
     rule_tscope(chk, zf.World(extract.facts_dir("all"), ["zcash_transparent"]))
     chk.finish()
